@@ -149,7 +149,16 @@ def run_into(res, prop, tier, scratch, binary):
                 res.violation("%s (session %d step %d: %s)" % (d["msg"], beh, d["step"], " ".join(d.get("trace", []))),
                               {"engine": "sess", "behaviour": json.loads(d["line"]), "divergences": ds,
                                "seed": sd * 100 + i})
+    nsel = None
+    if prop == "C13":
+        nsel, st2, tr2 = node_selection(res, tier, scratch, binary, sd)
+        states += st2
+        transitions += tr2
+        total += nsel["behaviours"]
+        desc.append(nsel.pop("exhaustive"))
     cov = res.coverage
+    if nsel:
+        cov["node_selection"] = nsel
     cov["states"] = cov.get("states", 0) + states
     cov["transitions"] = cov.get("transitions", 0) + transitions
     cov["traces_validated_against_impl"] = cov.get("traces_validated_against_impl", 0) + total
@@ -166,6 +175,51 @@ def run_into(res, prop, tier, scratch, binary):
                         "asynchronous interleavings are covered by the exhaustive PeerSession configuration only)",
                         "a session that diverges is re-run once; only a divergence that repeats is reported",
                         "the 3 s handshake timeout, the 10 min ping period and the node timeout are not exercised"]
+
+
+def node_selection(res, tier, scratch, binary, sd):
+    """C13, "never selected to serve header, transaction or block requests": NodeSelect.tla exhaustively, then its
+    behaviours replayed on the real NodeManager with real BitcoinNodes behind pipes (harness nsel)."""
+    quick = tier == "quick"
+    nodes = {q("a"), q("b"), q("c")}
+    out, st = run_tlc(scratch, "NodeSelect", cfg({"Nodes": nodes if quick else nodes | {q("d")}, "None": q("none")}, spec="Spec",
+                                                 invariants=["TypeOK", "NoDuplicates"], properties=["SelectedIsReady", "FindsOne"]),
+                      workers=NCPU, timeout=2400, name="nsel_exh")
+    tlc_ok(out, st, "NodeSelect exhaustive")
+    exh = "NodeSelect %d connections: %d distinct / %d generated" % (3 if quick else 4, st["distinct"], st["generated"])
+    states, transitions = st["distinct"], st["generated"]
+    depth = 9 if quick else 11
+    out, st = run_tlc(scratch, "NodeSelectGen", cfg({"Nodes": nodes, "None": q("none"), "Depth": depth}, spec="GSpec",
+                                                    invariants=["Emit"]),
+                      workers=1, simulate=300 if quick else 3000, depth=depth + 1, tlc_seed=sd * 100 + 13, timeout=1800,
+                      name="nsel_gen")
+    if st.get("error") or st.get("violation"):
+        raise Infra("NodeSelectGen failed: %s\n%s" % (st, out[-2000:]))
+    p = os.path.join(scratch, "nsel.txt")
+    with open(p, "w") as fh:
+        fh.write(out)
+    rc, o, err = run_harness(binary, ["nsel", "-in", p, "-seed", str(sd), "-workers", str(NCPU)], timeout=3000)
+    if rc != 0 or not o.strip():
+        raise Infra("nsel harness failed: " + err[-2000:])
+    r = json.loads(o)
+    stt = r["stats"]
+    if stt["behaviours"] == 0 or stt["requests"] == 0:
+        raise Infra("no node-selection behaviours replayed")
+    if stt["behaviours_abandoned_by_harness"] * 10 > stt["behaviours"]:
+        raise Infra("node-selection harness abandoned %d of %d behaviours: %s" % (
+            stt["behaviours_abandoned_by_harness"], stt["behaviours"], r["skipped"]))
+    for d in r["divergences"]:
+        f = match_finding("C13", d["msg"])
+        if f:
+            res.add_known(f, d["msg"])
+            continue
+        res.violation("%s (node-selection behaviour %d step %d)" % (d["msg"], d["beh"], d["step"]),
+                      {"engine": "nsel", "behaviour": json.loads(d["line"]), "seed": sd})
+    res.assumptions.append("node selection: RequestTxs uses the same walk (nextNode without a data filter) as RequestHeaders and is "
+                           "not driven separately; which of several qualifying connections is asked is counted, not judged")
+    stt["exhaustive"] = exh
+    stt["skipped"] = r["skipped"]
+    return stt, states, transitions
 
 
 def replay(prop, path):
